@@ -229,3 +229,64 @@ def wrap_import(rng, src, syntax):
         files["mid.scss"] = '@forward "dep";\n'
         files["main.scss"] = '@use "mid" as *;\n@import "mid";\nz{y:x}\n'
     return files, "main.scss"
+
+
+# --------------------------------------------------------------------------------------------
+# running many compile jobs fast, and shrinking
+# --------------------------------------------------------------------------------------------
+
+def run_many(pool, jobs, timeout=2.0, batch=40):
+    """Answers for `jobs`, in order.  Jobs travel in `seq` batches (one runner thread runs the jobs of
+    a batch one after another; a panic is caught per job by the runner).  A batch that does not come
+    back complete (hang, abort of the worker) is re-run job by job, so that the hang/abort is
+    attributed to exactly one job and confirmed by RunnerPool with its 10x budget."""
+    jobs = list(jobs)
+    res = [None] * len(jobs)
+    spans = [(i, min(len(jobs), i + batch)) for i in range(0, len(jobs), batch)]
+    answers = pool.map([{"mode": "seq", "jobs": jobs[a:b]} for a, b in spans],
+                       timeout=max(10.0, timeout * 5), confirm=False)
+    redo = []
+    for (a, b), ans in zip(spans, answers):
+        rs = ans.get("results") if ans.get("status") == "ok" else None
+        if rs is None or len(rs) != b - a:
+            redo += list(range(a, b))
+        else:
+            res[a:b] = rs
+    if redo:
+        single = pool.map([jobs[i] for i in redo], timeout=timeout, confirm=True)
+        for i, r in zip(redo, single):
+            res[i] = r
+    return res
+
+
+def ddmin(text, still_fails, max_calls=400):
+    """Delta debugging on the characters of `text`: a (locally) minimal string for which
+    `still_fails` holds.  `still_fails(text)` must hold on entry."""
+    calls = [0]
+
+    def test(t):
+        calls[0] += 1
+        return still_fails(t)
+
+    n = 2
+    cur = text
+    while len(cur) >= 2 and calls[0] < max_calls:
+        chunk = max(1, len(cur) // n)
+        parts = [cur[i:i + chunk] for i in range(0, len(cur), chunk)]
+        reduced = False
+        for k in range(len(parts)):
+            cand = "".join(parts[:k] + parts[k + 1:])
+            if cand != cur and test(cand):
+                cur = cand
+                n = max(n - 1, 2)
+                reduced = True
+                break
+            if calls[0] >= max_calls:
+                break
+        if not reduced:
+            if chunk == 1:
+                break
+            n = min(len(cur), n * 2)
+    if len(cur) == 1 and calls[0] < max_calls and test(""):
+        cur = ""
+    return cur
